@@ -801,6 +801,22 @@ def _simulate_generator(ctx, f, rid):
     return cfg, per_return
 
 
+def _singleton_test(ctx, f, test: ast.AST, label_param: str) -> Optional[str]:
+    """`<label parameter> == <singleton label>` (either operand order; the label as literal or as a module-level named
+    constant) -> the singleton label."""
+    if not (isinstance(test, ast.Compare) and len(test.ops) == 1 and isinstance(test.ops[0], ast.Eq)):
+        return None
+    l, r = test.left, test.comparators[0]
+    other = r if (isinstance(l, ast.Name) and l.id == label_param) else (l if (isinstance(r, ast.Name) and r.id == label_param) else None)
+    if other is None:
+        return None
+    if isinstance(other, ast.Name) and not ctx.rd(f).is_local(other.id):
+        other = module_constant(ctx, f.module, other.id)
+    if isinstance(other, ast.Constant) and other.value in SINGLETON_LABELS:
+        return other.value
+    return None
+
+
 def _is_graph_table(text: str, selfn: str) -> bool:
     return text == selfn or any(text == f"{selfn}.{t}" for t in GRAPH_TABLES)
 
@@ -818,13 +834,12 @@ def r4_fresh_name_generator(ctx, rid):
     for ret, outcomes in sorted(per_return.items(), key=lambda kv: kv[0].lineno):
         # frozen exception: `if label == 't': return label`
         guard = next((d for d in cfg.dominators(ret) if isinstance(d, ast.If) and any(contains(b, ret) for b in d.body)), None)
-        if guard is not None and isinstance(guard.test, ast.Compare) and len(guard.test.ops) == 1 \
-                and isinstance(guard.test.ops[0], ast.Eq) and isinstance(guard.test.left, ast.Name) and guard.test.left.id == label_param \
-                and isinstance(guard.test.comparators[0], ast.Constant) and guard.test.comparators[0].value in SINGLETON_LABELS \
-                and isinstance(ret.value, ast.Name) and ret.value.id == label_param:
+        single = _singleton_test(ctx, gen, guard.test, label_param) if guard is not None else None
+        if single is not None and isinstance(ret.value, ast.Name) and ret.value.id == label_param \
+                and not any(isinstance(n, ast.Name) and n.id == label_param and isinstance(n.ctx, ast.Store) for n in walk_shallow(gen.node)):
             ctx.ok(rid, gen, ret, f"returns the requested label untested only for the singleton "
-                                  f"'{guard.test.comparators[0].value}' ({SINGLETON_LABELS[guard.test.comparators[0].value]})",
-                   label=f"singleton {guard.test.comparators[0].value!r}", nontrivial=False)
+                                  f"'{single}' ({SINGLETON_LABELS[single]})",
+                   label=f"singleton {single!r}", nontrivial=False)
             continue
         bad_fresh = [(t, r, p) for t, r, p in outcomes if not any(_is_graph_table(x, selfn) or x in r for x in t)]
         bad_reg = [(t, r, p) for t, r, p in outcomes if not r]
@@ -943,6 +958,8 @@ def r4_fresh_name_generator(ctx, rid):
                 continue        # label or node object is kept by the caller (the node object carries its graph key as .name)
             lab = _bind_args(m, call).get(lab_param)
             facts = {"call": norm(st)}
+            if isinstance(lab, ast.Name) and not ctx.rd(caller).is_local(lab.id):
+                lab = module_constant(ctx, caller.module, lab.id) or lab     # a named module-level literal
             if isinstance(lab, ast.Constant) and lab.value in SINGLETON_LABELS:
                 ctx.ok(rid, caller, st, f"result discarded, requested label is the singleton '{lab.value}'", facts, nontrivial=False)
                 continue
@@ -1131,6 +1148,44 @@ def _iter_of_loop(L: ast.For) -> _Iter:
 
 COMPOUND = (ast.If, ast.For, ast.AsyncFor, ast.While, ast.Try, ast.With, ast.AsyncWith, ast.Match, ast.FunctionDef,
             ast.AsyncFunctionDef, ast.ClassDef, ast.Lambda, ast.ExceptHandler)
+
+
+def _subst_name(node, old: str, new: str):
+    """`node` with every Name `old` replaced by Name `new`; sub-trees that do not mention `old` are the original nodes (so
+    reaching definitions can still be asked for the names in them)."""
+    if isinstance(node, ast.Name):
+        return ast.Name(id=new, ctx=node.ctx) if node.id == old else node
+    if not isinstance(node, ast.AST) or not any(isinstance(n, ast.Name) and n.id == old for n in ast.walk(node)):
+        return node
+    import copy as _copy
+    out = _copy.copy(node)
+    for field, val in ast.iter_fields(node):
+        if isinstance(val, list):
+            setattr(out, field, [_subst_name(x, old, new) for x in val])
+        elif isinstance(val, ast.AST):
+            setattr(out, field, _subst_name(val, old, new))
+    return out
+
+
+def _unfold_filtered_pass(ctx, f, it: "_Iter"):
+    """A pass over `F` where `F = [x for x in N if cond(x)]` (an order-preserving filter of another list) is the pass over N
+    whose body runs under `cond`: returns the unfolded pass and the local names of the filtered copies."""
+    names: Set[str] = set()
+    for _ in range(3):
+        root = _copy_root(ctx, f, it.it)
+        comp = strip_wrappers(root.value) if root.value is not None else None
+        if not (isinstance(root.expr, ast.Name) and isinstance(comp, (ast.ListComp, ast.GeneratorExp)) and len(comp.generators) == 1
+                and not comp.generators[0].is_async and isinstance(comp.generators[0].target, ast.Name)
+                and isinstance(comp.elt, ast.Name) and comp.elt.id == comp.generators[0].target.id and isinstance(it.target, ast.Name)):
+            break
+        g = comp.generators[0]
+        body = it.body
+        if g.ifs:
+            conds = [_subst_name(c, g.target.id, it.target.id) for c in g.ifs]
+            body = [ast.If(test=conds[0] if len(conds) == 1 else ast.BoolOp(op=ast.And(), values=conds), body=list(it.body), orelse=[])]
+        names |= set(root.names)
+        it = _Iter(it.node, it.stmt, it.target, g.iter, body)
+    return it, names
 
 
 def _value_segments(ctx, f, rid, v_e):
@@ -1664,7 +1719,7 @@ def r6_names_and_values_from_one_iteration(ctx, rid):
             raise AnalysisError(f"{rid}: {f.qual}: values are collected in {len(iters)} loops (expected one)")
         if segs[-1][0] != "iter":
             raise AnalysisError(f"{rid}: {f.qual}: values are added to `{V}` after the pass over the names (unrecognised)")
-        it = iters[0]
+        it, filtered_names = _unfold_filtered_pass(ctx, vf, iters[0])
         L = it.stmt if site is None else site
         seeds_all = [p for k, p in segs if k == "seed"]
         seeds = [x for x, cond, _st in seeds_all if cond is None]
@@ -1689,7 +1744,7 @@ def r6_names_and_values_from_one_iteration(ctx, rid):
                                      f"(= {norm(ndef)}): values and names do not come from one iteration of one list, so value k "
                                      f"need not belong to name k", facts, label="one list for names and values")
             continue
-        n_names |= set(iroot.names) if same else set()
+        n_names |= (set(iroot.names) | (filtered_names if site is None else set())) if same else set()
         # no mutation / re-binding of N between its definition and the return
         nm_muts = [n for n in walk_shallow(f.node)
                    if (isinstance(n, ast.Call) and isinstance(n.func, ast.Attribute) and isinstance(n.func.value, ast.Name)
